@@ -8,7 +8,7 @@ TRUSTED_BASE = [
     "no extraction is used; no axiom is declared by the development",
 ]
 
-HOOK_COMMITS = []
+HOOK_COMMITS = ["b18f4f3"]
 NOT_YET = {}
 
 PROPS = {
@@ -23,5 +23,13 @@ PROPS = {
             "raffle's CheckingParameters::check is an oracle (Section variable vch); the harness feeds vouchers for the right value, another value and other parameters",
             "time crate: PrimitiveDateTime <-> unix nanoseconds conversion is not verified (the harness uses the same API to build the local time)",
         ],
+    },
+    "C15": {
+        "families": ["sdq"],
+        "n": {"quick": {"sdq": 1500}, "thorough": {"sdq": 40000}},
+        "rule": "all histories of length <= 5 (quick) / 6 (thorough) over {push_back, pop_front, pop_back, advance 1, advance 2, clear, slide, write 0} from three starting containers, alternating Vec and SmallVec<[i64;4]> backings, plus random histories of 8-200 operations with advance counts up to usize::MAX; distinct = distinct case line; non-trivial = a consumed prefix was held at some point",
+        "level_text": "Theorem C15_sliding_refines_list: for every operation history from any starting container the faithful model of SlidingDeque (check_rep as explicit Panic) never panics, returns exactly what a list deque returns, exposes the list as its view, and keeps 2*consumed <= container length and (empty => consumed = 0); proved by induction over unbounded histories. Tied to the code by exhaustive short histories and random long ones on Vec and SmallVec backings, debug and release, comparing every result, the view and (through hook verif_rep) the space clause after every operation.",
+        "level_note": "Trusted: Coq kernel; the list model of the backing container (Vec/SmallVec correctness, including the inline-to-heap move, is std's/smallvec's); hook verif_rep reads the two private fields.",
+        "assumptions": ["Vec<T> and SmallVec<A> behave as a list (push/pop/truncate/slice)", "Item: Copy values carry no ownership (as the trait requires)"],
     },
 }
